@@ -110,6 +110,17 @@ Example C13_ex_boolfix :
     = Some [TBool].
 Proof. vm_compute. split; reflexivity. Qed.
 
+(* ... and with _yatiml_extra: the extra attributes are handed over in document order, so the permuted mapping loads to the same
+   object EXCEPT for the order inside its _yatiml_extra mapping -- provided the user constructors do not look at that order. *)
+Theorem C13_key_order_extras : forall o reg, no_recognisers reg -> no_savorizers reg ->
+  forall t ps ps' m c v, Permutation ps ps' -> scalar_keys ps -> NoDup (keys ps) ->
+  load o reg (Some (Map t ps m)) (TClass c) = Ok v ->
+  (forall k main ex ex', In k reg -> Permutation ex ex' ->
+     c_init_ok k (main ++ [(extra_name, VDict ex)]) = c_init_ok k (main ++ [(extra_name, VDict ex')])) ->
+  exists v', load o reg (Some (Map t ps' m)) (TClass c) = Ok v' /\ (v' = v \/ same_upto_extras v v').
+Proof. exact load_key_order_extra. Qed.
+Print Assumptions C13_key_order_extras.
+
 (* Registering unrelated classes: reg ++ ext, where the classes of ext have fresh names, neither derive from classes of reg
    nor are bases of them, are mentioned by no parameter type of reg, and reg has no custom recognisers / savorize hooks (ext may
    have any).  Then at every type that does not mention ext, EVERY node -- whatever tags it carries, including tags naming
